@@ -373,6 +373,9 @@ def appendUnarySel (st : Store) : Nat → AnyOp → Rel → Except Err Res
 def appendBinarySql (st : Store) : Nat → BOp → Rel → Rel → Except Err BRes
   | 0, _, _, _ => .error .fuel
   | fuel+1, op, l, r => do
+    -- `if lhs.engine != self or rhs.engine != self: raise EngineError` (self is a SQL engine:
+    -- the dispatch is on an operand of this engine, so both must have that same engine)
+    if l.engine != r.engine || l.engine.kind != .sql then throw .engine
     let cl ← conform st fuel l
     let cr ← conform st fuel r
     let res ← appendBinarySel st fuel op (cl.get l) (cr.get r)
@@ -460,7 +463,12 @@ def transferTo (st : Store) : Nat → Engine → Rel → Except Err Res
       return Res.new (.transfer 0 dest (ct.get t1)))
     match dest.kind with
     | .iter => return base
-    | .sql => return .new (← applySkip (base.get t) {})
+    | .sql =>
+      -- `self.conform(super().transfer(target, payload))`
+      let b := base.get t
+      match ← conform st fuel b with
+      | .same => return base
+      | .new c => return .new c
 
 /-- `relation.materialized(name)` = `relation.engine.materialize(relation, name)`. -/
 def materialize (st : Store) : Nat → Rel → String → Except Err Res
@@ -472,8 +480,9 @@ def materialize (st : Store) : Nat → Rel → String → Except Err Res
       let ct ← conform st fuel t
       let c := ct.get t
       if c.slots.hasSort && !c.slots.hasSlice then throw .relAlg
-      let inner := if matSimplify c then c else .mat 0 name c
-      return .new (← applySkip inner {})
+      -- `self.conform(super().materialize(conformed_target, name, name_prefix))`
+      if matSimplify c then return ct
+      else return .new (← applySkip (.mat 0 name c) {})
 
 /-- `Engine.backtrack_unary(operation, tree, preferred)` dispatched on `tree.engine`'s kind. -/
 def backtrack (st : Store) : Nat → AnyOp → Rel → Engine → Except Err (Res × Bool)
